@@ -480,6 +480,13 @@ def parseRegexTail : P (Option Expr) := do
   else if c ≠ '/' then pure none
   else go
 
+/-- The part of `parseRegex` after the optional whitespace token: the comment-skipping loop,
+then the look at the next rune. -/
+def parseRegexSkip : P (Option Expr) := do
+  let s1 ← get
+  let ok ← skipCommentsLoop (s1.n + s1.r.rest.length + 1)
+  if !ok then pure none else parseRegexTail
+
 theorem parseRegex_eq :
     parseRegex = (do
       let s ← get
@@ -487,7 +494,7 @@ theorem parseRegex_eq :
       else
         let c0 ← peekRune
         if isWhitespace c0 then consumeWhitespace
-        parseRegexTail) := rfl
+        parseRegexSkip) := rfl
 
 def IsRegexOpt (r : Option Expr) : Prop := ∀ re, r = some re → ∃ src, re = .regex src
 
@@ -544,8 +551,80 @@ theorem parseRegexTail_wp (s : PState) (hg : Good s) (hn : s.n ≤ 1) :
     · exact wp_mono (parseRegexGo_wp (peekSt s) hp1.good hn1')
         (fun r s' h => ⟨hp1.trans h.1, h.2.1, h.2.2⟩) (fun _ h => h)
 
+theorem peekComment_run (s : PState) :
+    peekComment.run s = .ok (opensComment s.r.peek2.1 s.r.peek2.2, s) := rfl
+
+theorem peekComment_wp (s : PState) (Q : Bool → PState → Prop) (E : Fail → Prop) :
+    wp peekComment s Q E ↔ Q (opensComment s.r.peek2.1 s.r.peek2.2) s := Iff.rfl
+
+theorem skipCommentsLoop_succ (fuel : Nat) :
+    skipCommentsLoop (fuel + 1) = (do
+      if ← peekComment then
+        let lx ← pscan
+        if lx.tok ≠ .COMMENT then
+          unscan
+          pure false
+        else
+          let c ← peekRune
+          if isWhitespace c then consumeWhitespace
+          skipCommentsLoop fuel
+      else pure true) := rfl
+
+/-- **The comment-skipping loop of `parseRegex` never runs out of fuel** (with any fuel above the
+measure): every iteration that continues has delivered a COMMENT token. At most one token is
+pushed back afterwards. -/
+theorem skipCommentsLoop_wp (fuel : Nat) (s : PState) (hg : Good s) (hn : s.n ≤ 1)
+    (hf : mu s + 1 ≤ fuel) :
+    wp (skipCommentsLoop fuel) s (fun _ s' => Prog s s' ∧ s'.n ≤ 1) (fun _ => False) := by
+  induction fuel generalizing s with
+  | zero => omega
+  | succ fuel ih =>
+    rw [skipCommentsLoop_succ, wp_bind, peekComment_wp]
+    split
+    · rw [wp_bind]
+      refine wp_mono (pscan_wp s hg) ?_ (fun _ h => h)
+      intro lx s1 hd
+      rw [wp_ite]
+      split
+      · rw [wp_bind, unscan_wp, wp_pure]
+        exact ⟨hd.pushback.1, by have := hd.pushback.2.1; omega⟩
+      · rename_i hc
+        have hc' : lx.tok = .COMMENT := by simpa using hc
+        have hlt := hd.lt_of_tok (tok_ne_eof_of_eq hc' (by decide))
+        rw [wp_bind, peekRune_wp]
+        obtain ⟨hp2, hn2, _⟩ := peekSt_facts s1 hd.good
+        have hn2' : (peekSt s1).n ≤ 1 := by rw [hn2]; have := hd.nle; omega
+        dsimp only
+        rw [wp_ite]
+        split
+        · rw [wp_bind]
+          refine wp_mono (consumeWhitespace_wp (peekSt s1) hp2.good) ?_ (fun _ h => h)
+          intro _ s3 ⟨hp3, hn3⟩
+          refine wp_mono (ih s3 hp3.good (by omega) (by have := hp2.mu_le; have := hp3.mu_le; omega))
+            ?_ (fun _ h => h)
+          intro _ s' h
+          exact ⟨((hd.prog.trans hp2).trans hp3).trans h.1, h.2⟩
+        · refine wp_mono (ih (peekSt s1) hp2.good hn2' (by have := hp2.mu_le; omega)) ?_ (fun _ h => h)
+          intro _ s' h
+          exact ⟨(hd.prog.trans hp2).trans h.1, h.2⟩
+    · rw [wp_pure]
+      exact ⟨Prog.refl hg, hn⟩
+
+theorem parseRegexSkip_wp (s : PState) (hg : Good s) (hn : s.n ≤ 1) :
+    wp parseRegexSkip s (fun r s' => Prog s s' ∧ s'.n ≤ 1 ∧ IsRegexOpt r) Fail.isErr := by
+  unfold parseRegexSkip
+  rw [wp_bind, wp_get, wp_bind]
+  refine wp_false_elim (skipCommentsLoop_wp _ s hg hn (by have := pend_le_n s; unfold mu; omega)) ?_
+  intro ok s1 ⟨hp1, hn1⟩
+  rw [wp_ite]
+  split
+  · rw [wp_pure]
+    exact ⟨hp1, hn1, fun re h => by cases h⟩
+  · exact wp_mono (parseRegexTail_wp s1 hp1.good hn1)
+      (fun r s' h => ⟨hp1.trans h.1, h.2.1, h.2.2⟩) (fun _ h => h)
+
 /-- `parseRegex`: whatever it returns, the measure has not grown, at most one token is pushed
-back, and a result is a regex literal. -/
+back, and a result is a regex literal. It never fails for lack of fuel. -/
 theorem parseRegex_wp (s : PState) (hg : Good s) (hn : s.n ≤ 1) :
     wp parseRegex s (fun r s' => Prog s s' ∧ s'.n ≤ 1 ∧ IsRegexOpt r) Fail.isErr := by
   rw [parseRegex_eq, wp_bind, wp_get, wp_ite]
@@ -561,9 +640,9 @@ theorem parseRegex_wp (s : PState) (hg : Good s) (hn : s.n ≤ 1) :
   · rw [wp_bind]
     refine wp_false_elim (consumeWhitespace_wp (peekSt s) hp1.good) ?_
     intro _ s2 ⟨hp2, hn2⟩
-    exact wp_mono (parseRegexTail_wp s2 hp2.good (by omega))
+    exact wp_mono (parseRegexSkip_wp s2 hp2.good (by omega))
       (fun r s' h => ⟨(hp1.trans hp2).trans h.1, h.2.1, h.2.2⟩) (fun _ h => h)
-  · exact wp_mono (parseRegexTail_wp (peekSt s) hp1.good hn1')
+  · exact wp_mono (parseRegexSkip_wp (peekSt s) hp1.good hn1')
       (fun r s' h => ⟨hp1.trans h.1, h.2.1, h.2.2⟩) (fun _ h => h)
 
 /-! ### The expression parser -/
